@@ -16,6 +16,7 @@ import (
 	"github.com/google/uuid"
 
 	"go.6river.tech/mmmbbb/ent"
+	"go.6river.tech/mmmbbb/internal/sqltypes"
 )
 
 type Finding struct {
@@ -59,6 +60,10 @@ type Monitors struct {
 	// the retry policy each subscription was asked to have (CreateSubscription / UpdateSubscription
 	// requests; 0 = not given), independent of what the implementation stored
 	policy map[uuid.UUID][2]int64
+	// the dead-letter policy each subscription was asked to have (set = known to the monitor)
+	reqDL map[uuid.UUID]dlReq
+	// deliveries a seek re-opened although their retention had ended
+	revivedExpired map[uuid.UUID]bool
 	reopened map[uuid.UUID]bool     // deliveries re-opened by a seek at some point
 	handouts map[uuid.UUID]int      // delivery id -> number of times handed out (since last re-open)
 	snaps    map[string]*snapRecord // by snapshot name
@@ -81,7 +86,7 @@ type LinkMis struct {
 
 func NewMonitors() *Monitors {
 	return &Monitors{pubs: map[uuid.UUID]*pubRecord{}, leases: map[uuid.UUID]*leaseRecord{}, acked: map[uuid.UUID]int64{},
-		policy: map[uuid.UUID][2]int64{}, lastSeek: map[uuid.UUID]int64{}, reopened: map[uuid.UUID]bool{}, handouts: map[uuid.UUID]int{}, snaps: map[string]*snapRecord{},
+		policy: map[uuid.UUID][2]int64{}, reqDL: map[uuid.UUID]dlReq{}, revivedExpired: map[uuid.UUID]bool{}, lastSeek: map[uuid.UUID]int64{}, reopened: map[uuid.UUID]bool{}, handouts: map[uuid.UUID]int{}, snaps: map[string]*snapRecord{},
 		lastPull: map[uuid.UUID]int64{}, dlDone: map[uuid.UUID]bool{}, Counts: map[string]int{}, linkMissing: map[uuid.UUID]bool{}, seekAcked: map[uuid.UUID]bool{}}
 }
 
@@ -94,6 +99,7 @@ var alsoViolates = map[string][][2]string{
 	"C13/not-restored":                {{"C01", "lost-by-seek"}},
 	"C13/snapshot-later-not-restored": {{"C01", "lost-by-seek"}},
 	"C13/restore-times":               {{"C14", "retention-not-restarted"}},
+	"C13/seek-revived-expired":        {{"C14", "revived-after-retention"}}, // deliverable for exactly its retention
 	"C13/row-lost":                    {{"C01", "lost"}},
 	"C06/forward-missing":             {{"C01", "forward-missing"}},
 	"C06/forward-filter":              {{"C02", "forward-filter"}, {"C07", "forward-filter"}},
@@ -251,12 +257,68 @@ func liveSubByName(subs map[uuid.UUID]*ent.Subscription, name string) *ent.Subsc
 	return nil
 }
 
+type dlReq struct {
+	topic *uuid.UUID // nil = no dead-letter policy
+	max   int32
+}
+
+// asRequested returns the subscription rows with the retry and dead-letter policy the clients asked for
+// (CreateSubscription / UpdateSubscription requests seen by the monitor) in place of whatever the
+// implementation says it stored: the monitors judge the data plane against the requested configuration.
+func (m *Monitors) asRequested(subs map[uuid.UUID]*ent.Subscription) map[uuid.UUID]*ent.Subscription {
+	out := make(map[uuid.UUID]*ent.Subscription, len(subs))
+	for id, s := range subs {
+		pol, hasPol := m.policy[id]
+		dl, hasDL := m.reqDL[id]
+		if !hasPol && !hasDL {
+			out[id] = s
+			continue
+		}
+		c := *s
+		if hasPol {
+			c.MinBackoff, c.MaxBackoff = nil, nil
+			if pol[0] > 0 {
+				v := sqltypes.Interval(pol[0])
+				c.MinBackoff = &v
+			}
+			if pol[1] > 0 {
+				v := sqltypes.Interval(pol[1])
+				c.MaxBackoff = &v
+			}
+		}
+		if hasDL {
+			c.DeadLetterTopicID, c.MaxDeliveryAttempts = nil, nil
+			if dl.topic != nil {
+				t, n := *dl.topic, dl.max
+				c.DeadLetterTopicID, c.MaxDeliveryAttempts = &t, &n
+			}
+		}
+		out[id] = &c
+	}
+	return out
+}
+
+func liveTopicID(topics map[uuid.UUID]*ent.Topic, name string) *uuid.UUID {
+	for id, t := range topics {
+		if t.Name == name && t.DeletedAt == nil {
+			id := id
+			return &id
+		}
+	}
+	return nil
+}
+
 // Observe checks one executed operation against every property monitor.
 func (m *Monitors) Observe(idx int, r *Result) {
 	m.idx = idx
 	op := r.Op
 	now := r.T
 	ok := strings.HasPrefix(r.Resp, "ok")
+	{
+		rr := *r
+		rr.SubsBefore = m.asRequested(r.SubsBefore)
+		r = &rr
+	}
 
 	// ---------- bookkeeping of rows a seek acknowledged ----------
 	if op.K == "seek_time" || op.K == "seek_snap" {
@@ -274,6 +336,12 @@ func (m *Monitors) Observe(idx int, r *Result) {
 			delete(m.leases, id)
 			delete(m.dlDone, id)
 			m.handouts[id] = 0
+			if op.K == "seek_time" && ns(b.ExpiresAt) < now {
+				// a seek to a time brings back "exactly the retained messages": a delivery past its retention
+				// stays gone (a seek to a snapshot restores the snapshot's set, not-yet-pruned expired rows included)
+				m.revivedExpired[id] = true
+				m.fire("C13", "seek-revived-expired", "Seek on %s re-opened delivery %s whose retention had ended at %d (now %d)", op.Sub, id, ns(b.ExpiresAt), now)
+			}
 			if op.K != "seek_time" && op.K != "seek_snap" {
 				m.fire("C03", "resurrect", "operation %s re-opened completed delivery %s", op.K, id)
 			} else if s := liveSubByName(r.SubsBefore, SubName(op.Sub)); s == nil || s.ID != b.SubscriptionID {
@@ -336,6 +404,12 @@ func (m *Monitors) Observe(idx int, r *Result) {
 				m.lastPull[s.ID] = now
 				if op.Cfg != nil {
 					m.policy[s.ID] = [2]int64{op.Cfg.MinB, op.Cfg.MaxB}
+					switch {
+					case op.Cfg.DLT == "" && op.Cfg.MaxAtt == 0:
+						m.reqDL[s.ID] = dlReq{}
+					case op.Cfg.DLT != "" && op.Cfg.MaxAtt > 0:
+						m.reqDL[s.ID] = dlReq{topic: liveTopicID(r.TopicsBefore, TopicName(op.Cfg.DLT)), max: op.Cfg.MaxAtt}
+					}
 				}
 			}
 		}
@@ -556,6 +630,10 @@ func (m *Monitors) Observe(idx int, r *Result) {
 						// the overtaking delivery was not linked behind its same-key predecessor when it was
 						// published although that predecessor was inside its retention: not the recorded finding
 						sig = "overtake-link-missing"
+					} else if m.reopened[oid] && m.revivedExpired[oid] {
+						// the predecessor's retention had ended before the overtaking message was published (no link
+						// is due then); a seek brought it back regardless: not the recorded finding
+						sig = "overtake-expired-predecessor-revived"
 					} else if m.reopened[oid] {
 						sig = "overtake-seek-reopened-predecessor"
 					} else if m.seekAcked[b.NotBeforeID] {
@@ -760,6 +838,13 @@ func (m *Monitors) Observe(idx int, r *Result) {
 				continue
 			}
 			retained := ns(b.ExpiresAt) >= now
+			if b.CompletedAt != nil && a.CompletedAt == nil {
+				// revived by the seek: immediately deliverable, with fresh retention (as for a seek to a time)
+				m.Counts["snapshot_revived_rows"]++
+				if ns(a.AttemptAt) != now || ns(a.ExpiresAt) != now+int64(sub.MessageTTL) {
+					m.fire("C13", "restore-times", "seek to snapshot %s restored delivery %s with attempt_at=%d expires=%d, expected %d / %d (now, now + message retention)", op.Snap, id, ns(a.AttemptAt), ns(a.ExpiresAt), now, now+int64(sub.MessageTTL))
+				}
+			}
 			switch {
 			case sr.unacked[b.MessageID] && !sr.acked[b.MessageID]:
 				// unacknowledged when the snapshot was taken: outstanding again (same subscription only:
@@ -783,6 +868,22 @@ func (m *Monitors) Observe(idx int, r *Result) {
 		// UpdateSubscription(expiration_policy): the subscription's expiry clock restarts with the new TTL
 		if ok && op.Rpc != nil && op.Rpc.Kind == "updateSub" && op.Rpc.Sub != nil {
 			for _, pth := range op.Rpc.Paths {
+				if pth == "dead_letter_policy" {
+					if s := liveSubByName(r.SubsAfter, op.Rpc.Sub.Name); s != nil {
+						switch {
+						case op.Rpc.Sub.DLTopic == nil || *op.Rpc.Sub.DLTopic == "":
+							m.reqDL[s.ID] = dlReq{}
+						default:
+							if tid := liveTopicID(r.TopicsBefore, *op.Rpc.Sub.DLTopic); tid != nil {
+								mx := op.Rpc.Sub.DLMax
+								if mx == 0 {
+									mx = 5 // the API default
+								}
+								m.reqDL[s.ID] = dlReq{topic: tid, max: mx}
+							}
+						}
+					}
+				}
 				if pth == "retry_policy" {
 					if s := liveSubByName(r.SubsAfter, op.Rpc.Sub.Name); s != nil {
 						var pol [2]int64
